@@ -1630,8 +1630,11 @@ func (iqr *IQR) CreateStatsResults(bucketHolderArr []*structs.BucketHolder, meas
 		return err
 	}
 
-	iqr.groupbyColumns = aggGroupByCols
-	iqr.measureColumns = measureFuncs
+	// Copy the names: RenameColumn() edits these slices in place, and the
+	// caller's slices may belong to the search results, from which the
+	// results can be extracted again (e.g., after a Rewind()).
+	iqr.groupbyColumns = append([]string{}, aggGroupByCols...)
+	iqr.measureColumns = append([]string{}, measureFuncs...)
 
 	if errIndex > 0 {
 		log.Errorf("qid=%v, IQR.CreateStatsResults: conversion errors: %v", iqr.qid, conversionErrors)
